@@ -8,7 +8,7 @@
    the client abort (client_run returns Abort, i.e. an error before any application data).
    State of the files: they describe the tree WITH fixes/C12-tls12-unoffered-curve.diff applied
    (env_fixed); the pre-fix behaviour is kept as env_unfixed and refuted below. *)
-From UV Require Import Base.Common Model.Negotiate Model.NegotiateSess Model.NegotiateKeys Proofs.NegotiateP Proofs.NegotiateSessP Proofs.NegotiateKeysP.
+From UV Require Import Base.Common Model.Negotiate Model.NegotiateSess Model.NegotiateKeys Model.NegotiateReport Proofs.NegotiateP Proofs.NegotiateSessP Proofs.NegotiateReportP Proofs.NegotiateKeysP.
 From UV Require Model.KeyShare Model.Complete.
 
 (* TLS 1.3 cipher suite (ServerHello and HelloRetryRequest) *)
@@ -189,6 +189,37 @@ Example C12_ex_second_share :
   /\ Complete.client_run10 false env_fixed ff_view (KeyShare.mkShape 29 [] false 0) ff_flight = Abort a_illegal_parameter
   /\ client_run ff_view ff_flight = Abort a_illegal_parameter.
 Proof. exact second_share_after_c18. Qed.
+
+(* "The client never reports such an unoffered value in ConnectionState" - ALSO after an aborted handshake.
+   report_gen (Model/NegotiateReport.v) = the cipher suite, key-exchange group and ALPN protocol the Conn holds when the handshake
+   stops, completed or not (each is assigned right after its check passed; 0 / [] = never assigned). Whatever the server sent: *)
+Theorem C12_reported_values_offered : forall fixed e v ks w fl,
+  e_fix_curve12 e = true -> synced v w = true ->
+  let r := report_gen e (eff_view fixed v ks fl) fl in
+  (cs_suite r = 0 \/ In (cs_suite r) (w_suites w))
+  /\ (cs_group r = 0 \/ In (cs_group r) (w_shares w) \/ In (cs_group r) (w_groups w))
+  /\ (cs_alpn r = [] \/ In (cs_alpn r) (w_alpn w)).
+Proof. exact report10_offered_wire. Qed.
+Print Assumptions C12_reported_values_offered.
+
+(* and a completed handshake reports exactly the state it completed with *)
+Theorem C12_report_of_completed : forall fixed e v ks fl st,
+  Complete.client_run10 fixed e v ks fl = Complete st ->
+  let r := report_gen e (eff_view fixed v ks fl) fl in
+  cs_suite r = cs_suite st /\ cs_group r = cs_group st /\ cs_alpn r = cs_alpn st.
+Proof. exact report10_of_complete. Qed.
+Print Assumptions C12_report_of_completed.
+
+Example C12_ex_report_after_abort :
+  (* EncryptedExtensions ALPN "h3" not offered: abort, suite and group reported (they passed), no protocol *)
+  client_run f12_view (mkFlight None (mkHello 771 772 0 [1; 2; 3] 4865 0 29 0 false None []) [104; 51] None None true)
+  = Abort a_no_application_protocol /\
+  report_gen env_fixed f12_view (mkFlight None (mkHello 771 772 0 [1; 2; 3] 4865 0 29 0 false None []) [104; 51] None None true)
+  = rep 4865 29 [] /\
+  (* unoffered group: nothing but the suite *)
+  report_gen env_fixed f12_view (mkFlight None (mkHello 771 772 0 [1; 2; 3] 4865 0 25 0 false None []) [] None None true)
+  = rep 4865 0 [].
+Proof. vm_compute. repeat split; reflexivity. Qed.
 
 (* ---- every hypothesis is satisfiable by concrete non-trivial inputs ---- *)
 Example C12_ex_complete13 :
